@@ -26,9 +26,9 @@ func init() {
 		Controls: []string{"CtlFirstColumnOfPossiblyEmptyRecord"},
 		Run:      ruleErr19})
 	Register(&Rule{ID: "R-ERR-20", Props: []string{"C19"}, Floor: 35,
-		Doc: "in lib/query, an index that ranges over slice A (`for i := range A`, `for i, x := range A`, `for i := 0; i < len(A); i++`) and is used (unchanged) to index a DIFFERENT slice B needs len(B) ≥ len(A) shown: B was made with len(A) (or a length provably ≥ len(A)) in this function or its parent, B and A are the same collection / parallel fields, a dominating comparison orders i (or len(A)) against len(B), or the interval/relational prover shows i < len(B). " +
+		Doc: "in lib/query, an index that ranges over slice A (`for i := range A`, `for i, x := range A`, `for i := 0; i < len(A); i++`) and is used (unchanged) to index a DIFFERENT slice B needs len(B) ≥ len(A) shown: B was made with len(A) (or a length provably ≥ len(A)) in this function or its parent — or, in an unexported helper that receives A and B (or the length B is made with) as parameters, the relation holds between the arguments at every call site —, B and A are the same collection / parallel fields, a dominating comparison orders i (or len(A)) against len(B), or the interval/relational prover shows i < len(B). " +
 			"Restricted to B of a data-shaped type or made from one (records, record sets, headers, cells, row values, their parallel []int/[]string helpers are not included)",
-		Controls: []string{"CtlRangeOverOtherSlice"},
+		Controls: []string{"CtlRangeOverOtherSlice", "ctlRangeHelperSizedByParam", "ctlRangeHelperFillsParam"},
 		Run:      ruleErr20})
 }
 
